@@ -13,6 +13,8 @@ finite tables the code denotes (no execution):
     every escape sequence it emits is an arm of the readers' escape tables mapping back to the byte.
  S2 reader escape tables contain the ISO 32000-1 Table 3 escapes with the right values and octal.
  F1 reals: the value formatted in a Real arm is guarded by a finiteness test.
+ G1 references: the Reference arm of every serialiser formats two run-time values before ` R` — the object number *and* the
+    generation (a constant generation reads back as a different reference; all siblings agree).
  X1 sibling agreement: all serialisers of the object model satisfy the above alike.
 Not decided: value equality of nested trees; precision of reals.
 """
@@ -220,6 +222,24 @@ def check_serializers(ctx, readers, rules=("N1", "N2", "S1", "F1")):
                     ctx.ok("N2", key, "%s passes only regular bytes" % L.short(cls[2]), where)
             else:
                 ctx.undecided_site("N2", key, "escaper recognised by constants only", where)
+        # --- Reference arm
+        i = TK.arm_index(m, "Reference")
+        if i is not None:
+            lo, hi = TK.arm_range(fn, m, i)
+            sites = [s_ for s_ in facts.fmt_sites_in(fn) if lo <= s_["line"] <= hi and any(isinstance(p_, str) and p_.rstrip().endswith("R") for p_ in s_["tpl"])]
+            key = "%s:Reference" % sname
+            where = "%s:%d" % (m["file"], lo)
+            if not sites:
+                ctx.undecided_site("G1", key, "no `.. R` format site found in the Reference arm", where)
+            else:
+                ph = [p_ for p_ in sites[0]["tpl"] if isinstance(p_, dict)]
+                if len(ph) >= 2:
+                    ctx.ok("G1", key, "object number and generation are both formatted", where)
+                else:
+                    ctx.violation("G1", key, "the Reference arm of %s formats %d run-time value(s) before ` R` (template %r): the generation "
+                                  "number of the referenced object is not written, so `42 3 R` is read back as `42 0 R` — a different "
+                                  "(usually missing) object; the sibling serialisers write both" % (sname, len(ph), "".join(
+                                      p_ if isinstance(p_, str) else "{}" for p_ in sites[0]["tpl"])), where)
         # --- String arm
         i = TK.arm_index(m, "String")
         if i is not None and "S1" in rules:
